@@ -18,6 +18,8 @@ func H_C08_Step() {
 	kinds := []int{evtMsg, evtTimeout, evtConnErr, evtRun}
 	kind := kinds[zzvrt.Choice("event", len(kinds))]
 	e.doEvent(kind)
+	// a handler that returns with a mutex of the connection still held blocks the receive loop at the next frame
+	zzvrt.Assert(zzvrt.LocksHeld(e.c) == 0, "C08.handler-returned-with-a-mutex-held")
 	// closures spawned by the event (delayed close, abort-done close)
 	zzvrt.RunSpawnedExcept("setHandshakeTimer") // delayed-close closures; timer goroutines stay parked
 	zzvrt.Cover("c08.step.end")
